@@ -91,6 +91,42 @@ func runC08(c *Ctx) {
 			} else {
 				r.Pass("publish/announce-then-check", key, f.PosOf(send), "scheduledCount.Add(1) precedes every running check that licenses the send")
 			}
+			// the duplicate mark: whoever claims it (BatchWriteScheduled() reported "not yet scheduled") is
+			// the goroutine every concurrent duplicate Enqueue relies on - those return at once. After the
+			// claim every path must therefore reach the send; a path that backs out (stopped writer) lets a
+			// duplicate Enqueue that returned before Stop was called go unwritten.
+			{
+				_, claimed := f.CondEdges(func(e ast.Expr) bool {
+					c, ok := ast.Unparen(e).(*ast.CallExpr)
+					if !ok {
+						return false
+					}
+					se, ok := ast.Unparen(c.Fun).(*ast.SelectorExpr)
+					return ok && se.Sel.Name == "BatchWriteScheduled" && len(c.Args) == 0
+				})
+				isSend := func(n ast.Node) bool {
+					s, ok := n.(*ast.SendStmt)
+					return ok && fieldSel(info, s.Chan, "batchQueue")
+				}
+				switch {
+				case len(claimed) == 0:
+					r.Fail("publish/mark-holder-enqueues", key, f.PosOf(send), "no branch on object.BatchWriteScheduled() in Enqueue (vacuous)")
+				default:
+					badClaim := ""
+					var w []string
+					for _, e := range claimed {
+						e := e
+						if path, found := f.reach(Point{e.From.Succs[e.Succ], 0}, &searchOpts{AvoidNode: isSend, FromEdge: &e}, func(pt Point, atExit bool) bool { return atExit }); found {
+							badClaim, w = "after claiming the scheduled mark (BatchWriteScheduled() == false) Enqueue can return without queueing the object: a concurrent duplicate Enqueue saw the mark, returned, and its object is never written although it was enqueued before Stop", path
+						}
+					}
+					if badClaim != "" {
+						r.Fail("publish/mark-holder-enqueues", key, f.PosOf(send), badClaim, w...)
+					} else {
+						r.Pass("publish/mark-holder-enqueues", key, f.PosOf(send), fmt.Sprintf("%d claim edge(s), each followed by the send on every path", len(claimed)))
+					}
+				}
+			}
 			// balance: after the increment every path sends or takes it back
 			for _, a := range f.Find(isCountAdd("1")) {
 				if w, found := f.PathToExitAvoiding(a, func(n ast.Node) bool {
